@@ -93,7 +93,17 @@ def cases_for(run: Run, tier: str) -> list[dict]:
 
 
 def evaluate(run: Run, cases: list[dict], tag: str, count: bool) -> dict[int, list]:
-    """runs both tokenizers / parsers on every case and lets TLC judge; returns index -> [(clause, detail)]"""
+    """runs both tokenizers / parsers on every case and lets TLC judge; returns index -> [(clause, detail)];
+    chunk by chunk, so that the observations (two token streams and two trees per literal) are never all in memory"""
+    CH = 60000
+    bad: dict[int, list] = {}
+    for n, lo in enumerate(range(0, len(cases), CH)):
+        for i, items in _evaluate(run, cases[lo:lo + CH], f"{tag}-{n}", count).items():
+            bad[lo + i] = items
+    return bad
+
+
+def _evaluate(run: Run, cases: list[dict], tag: str, count: bool) -> dict[int, list]:
     res = run_ops("c10", [{"src": c["src"]} for c in cases], limit=20.0, batch=50)
     bad: dict[int, list] = {}
     ttraces, atraces = [], []
